@@ -57,6 +57,9 @@ pub fn leaves() -> Vec<Ast> {
         Ast::Var("u".into()),
         // the empty value `()`
         Ast::Unit,
+        // a float and a string with leading and trailing whitespace (typed views must hand them out unchanged)
+        Ast::Lit(RV::Float(2.5)),
+        Ast::Lit(RV::Str(" s ".into())),
         // failing atoms: arithmetic and type error
         Ast::Bin(BinOp::Div, Box::new(int(1)), Box::new(int(0))),
         Ast::Bin(BinOp::Add, Box::new(Ast::Lit(RV::Bool(true))), Box::new(int(1))),
@@ -141,10 +144,11 @@ pub fn unrank(counts: &[u64], lv: &[Ast], n: usize, mut idx: u64) -> Ast {
     unreachable!("rank out of range")
 }
 
-/// Does the program contain a comparison operator (`<`, `==`)? The quick tiers enumerate the largest
-/// program size without them.
+/// Does the program contain a comparison operator (`<`, `==`) or one of the two literal leaves added later
+/// (a float, a padded string)? The quick tiers enumerate the largest program size without them.
 pub fn has_comparison(a: &Ast) -> bool {
     match a {
+        Ast::Lit(RV::Float(_)) | Ast::Lit(RV::Str(_)) => true,
         Ast::Var(_) | Ast::Lit(_) | Ast::Unit => false,
         Ast::Bin(op, l, r) => matches!(op, BinOp::Lt | BinOp::Eq) || has_comparison(l) || has_comparison(r),
         Ast::Pre(_, e) | Ast::Call(_, e) | Ast::Partial(_, e) | Ast::Asg(_, _, e) => has_comparison(e),
